@@ -234,6 +234,8 @@ func (w *Worker) runPath(prefix []Decision) {
 	r.raceSeen = map[string]bool{}
 	r.backings = map[*Value]*Backing{}
 	r.bufBacking = map[*Value]*Backing{}
+	r.bufGen = map[*Value]*Backing{}
+	r.bufResetPending = map[*Value]bool{}
 	r.pools = map[*Value]*PoolObj{}
 	r.atomicVals = map[*Value]*anyBox{}
 	r.syncMaps = map[*Value]*MapV{}
